@@ -369,6 +369,12 @@ func init() {
 			ex.sliceWrite(st, d, 0, out)
 			return ex.ctx.BVConst(64, uint64(n))
 		},
+		// sync/atomic on a single goroutine (the harnesses are sequential; DESIGN.md section 4): plain memory operations
+		"sync/atomic.LoadUint32": atomicLoad, "sync/atomic.LoadInt32": atomicLoad, "sync/atomic.LoadUint64": atomicLoad, "sync/atomic.LoadInt64": atomicLoad,
+		"sync/atomic.StoreUint32": atomicStore, "sync/atomic.StoreInt32": atomicStore, "sync/atomic.StoreUint64": atomicStore, "sync/atomic.StoreInt64": atomicStore,
+		"sync/atomic.AddUint32": atomicAdd, "sync/atomic.AddInt32": atomicAdd, "sync/atomic.AddUint64": atomicAdd, "sync/atomic.AddInt64": atomicAdd,
+		"sync/atomic.SwapUint32": atomicSwap, "sync/atomic.SwapInt32": atomicSwap, "sync/atomic.SwapUint64": atomicSwap, "sync/atomic.SwapInt64": atomicSwap,
+		"sync/atomic.CompareAndSwapUint32": atomicCAS, "sync/atomic.CompareAndSwapInt32": atomicCAS, "sync/atomic.CompareAndSwapUint64": atomicCAS, "sync/atomic.CompareAndSwapInt64": atomicCAS,
 		"math.Ceil":  fpUn(OFCeil),
 		"math.Floor": fpUn(OFFloor),
 		"math.Trunc": fpUn(OFTrunc),
@@ -531,4 +537,35 @@ func slicesOverlap(a, b SliceV, inexact bool) bool {
 		return false
 	}
 	return a.Off < b.Off+b.Len && b.Off < a.Off+a.Len
+}
+
+func atomicLoad(ex *Exec, st *State, fn *ssa.Function, args []Value) Value {
+	return ex.load(st, args[0].(PtrV))
+}
+
+func atomicStore(ex *Exec, st *State, fn *ssa.Function, args []Value) Value {
+	ex.store(st, args[0].(PtrV), args[1])
+	return nil
+}
+
+func atomicAdd(ex *Exec, st *State, fn *ssa.Function, args []Value) Value {
+	p := args[0].(PtrV)
+	v := ex.ctx.BvBin(OBvAdd, ex.load(st, p).(*Term), args[1].(*Term))
+	ex.store(st, p, v)
+	return v
+}
+
+func atomicSwap(ex *Exec, st *State, fn *ssa.Function, args []Value) Value {
+	p := args[0].(PtrV)
+	old := ex.load(st, p)
+	ex.store(st, p, args[1])
+	return old
+}
+
+func atomicCAS(ex *Exec, st *State, fn *ssa.Function, args []Value) Value {
+	p := args[0].(PtrV)
+	cur := ex.load(st, p).(*Term)
+	hit := ex.ctx.Eq(cur, args[1].(*Term))
+	ex.store(st, p, ex.ctx.Ite(hit, args[2].(*Term), cur))
+	return hit
 }
